@@ -110,6 +110,41 @@ def expected_scale(itype, w, B):
     return g("FacetArea") / g("ReferenceFacetVolume") * B.scalar(w.weight)
 
 
+def geo_factor(U, rng):
+    """An argument-free scalar built from explicit Jacobians / inverses / determinants the way a user may write
+    them (projectors J*K, metric J^T J, K*J, powers of detJ): food for Jacobian cancellation and geometry lowering."""
+    from ufl import Identity, Jacobian, JacobianDeterminant, JacobianInverse, dot, inner, tr
+    from ufl.classes import CellVolume
+
+    g, t = U.gdim, U.tdim
+    side = rng.choice("+-")
+
+    def R(e):
+        return e(side) if U.interior else e
+
+    Jm, Km, dJ = R(Jacobian(U.mesh)), R(JacobianInverse(U.mesh)), R(JacobianDeterminant(U.mesh))
+    a, b = U.const((g,), 0), U.const((g,), 1)
+    i, j, k, l = U.idx[:4]  # noqa: E741
+    c = rng.randrange(9)
+    if c == 0:
+        return dot(Jm * Km * a, b)
+    if c == 1:
+        return tr(Km * Jm) + 2 * tr(Jm * Km)
+    if c == 2:
+        return Jm[i, k] * Km[k, j] * a[i] * b[j]
+    if c == 3:
+        return Km[k, i] * Jm[i, l] * Identity(t)[k, l]
+    if c == 4:
+        return dJ * dJ / abs(dJ) + 1 / dJ
+    if c == 5:
+        return dot(Jm.T * a, Jm.T * b)
+    if c == 6:
+        return (Jm * Km)[0, g - 1] + (Km * Jm)[0, t - 1] + inner(Jm * Km, Jm * Km)
+    if c == 7:
+        return inner(dot(Jm, dot(Km, Jm)), Jm)
+    return (dJ**2) ** 0.5 / R(CellVolume(U.mesh)) + abs(dJ) ** 1.5 / dJ
+
+
 def gen_form(rng, cell, gdim, cplx, nint, arity, itypes_all, metadata_fn=None, subdomain_fn=None, depth=(1, 2)):
     """Random form: returns (form, pieces) with pieces = [(integral type, subdomain id, integrand, metadata)]."""
     metadata_fn = metadata_fn or metadata_choice
@@ -131,6 +166,8 @@ def gen_form(rng, cell, gdim, cplx, nint, arity, itypes_all, metadata_fn=None, s
         if it == "interior_facet" and rng.random() < 0.4:
             G.unrestricted_prob = 0.15
         integrand, args = G.integrand(arity, depth=rng.choice(list(depth)), space_names=space_names)
+        if rng.random() < 0.25:
+            integrand = integrand * (2 + geo_factor(U, rng))
         sid = subdomain_fn(rng)
         md = metadata_fn(rng)
         piece = integrand * U.measure(sid, md)
@@ -274,6 +311,8 @@ def judge(ctx, form, pieces, opts, cell, gdim, cplx, rng, tag=None):
     verdict_all = []
     worst = None
     listed = set(groups)
+    doms = form.ufl_domains()
+    mesh = doms[0] if len(doms) == 1 else None
     for key in in_keys:
         groups.setdefault(key, [])
     for (itype, k), outs in sorted(groups.items(), key=lambda kv: repr(kv[0])):
@@ -286,6 +325,7 @@ def judge(ctx, form, pieces, opts, cell, gdim, cplx, rng, tag=None):
             for _ in range(3):
                 w = World(rng, cell, gdim, itype, cplx, conforming=True)
                 w.alias.update(replace_back)
+                w.mesh = mesh
                 worlds.append(w)
         except oracle.Unsupported:
             ctx.count("world_unsupported")
